@@ -851,7 +851,7 @@ func (lb *LoadBalancer) findHealthyBackend(r *http.Request) *Backend {
 func (lb *LoadBalancer) proxyRequest(backend *Backend, w http.ResponseWriter, r *http.Request, startTime time.Time) error {
 	// Track the active connection
 	backend.IncrementConnections()
-	lb.metricsCollector.SyncBackendConnections(backend.Name, backend.GetActiveConnections)
+	lb.metricsCollector.SyncBackendConnections(backend.Name, lb.connectionsUnderName(backend))
 
 	// Create a custom response writer to capture the status code
 	rw := &responseWriter{
@@ -867,7 +867,7 @@ func (lb *LoadBalancer) proxyRequest(backend *Backend, w http.ResponseWriter, r 
 	defer func() {
 		// Decrement the connection count when done
 		backend.DecrementConnections()
-		lb.metricsCollector.SyncBackendConnections(backend.Name, backend.GetActiveConnections)
+		lb.metricsCollector.SyncBackendConnections(backend.Name, lb.connectionsUnderName(backend))
 
 		if !completed {
 			// Aborted mid-response: a failed request of this backend
@@ -948,6 +948,30 @@ func (lb *LoadBalancer) handlePassiveHealthCheck(backend *Backend, statusCode in
 		lb.healthChecks.unhealthyBackendMu.Lock()
 		lb.healthChecks.unhealthyBackends[backend.Name] = 0
 		lb.healthChecks.unhealthyBackendMu.Unlock()
+	}
+}
+
+// connectionsUnderName returns a reader of the number of requests in flight under the
+// backend's name. The metrics are kept by name and names are not unique: with two backends
+// registered under one name, the gauge published for the name is that of both together, not
+// that of whichever of them served a request last. The reader takes no locks (it runs under
+// the metrics lock) and reads the live gauges.
+func (lb *LoadBalancer) connectionsUnderName(backend *Backend) func() int32 {
+	lb.mutex.RLock()
+	all := lb.strategy.GetBackends()
+	lb.mutex.RUnlock()
+	peers := []*Backend{backend}
+	for _, b := range all {
+		if b != backend && b.Name == backend.Name {
+			peers = append(peers, b)
+		}
+	}
+	return func() int32 {
+		var n int32
+		for _, b := range peers {
+			n += b.GetActiveConnections()
+		}
+		return n
 	}
 }
 
